@@ -1,7 +1,7 @@
 """C04 — digests are always judged against the first recorded value."""
 import os, random, itertools, json, io
 import xml.etree.ElementTree as ET
-from .. import rt, framework as fw, pool, gen, witnesses
+from .. import rt, framework as fw, pool, gen, witnesses, largefiles
 
 FORMATS = gen.FORMATS
 SUBSETS = [list(c) for r in range(1, 7) for c in itertools.combinations(FORMATS, r)]  # 63
@@ -157,6 +157,8 @@ def run(ctx):
             if rnd.random() < 0.5 and alter + 1 < n:
                 restore = rnd.randint(alter + 1, n - 1)
         scs.append(seq_scenario(seq, mode=rnd.choice(["folder", "folder", "sf"]), nested=rnd.random() < 0.3, alter=alter, restore=restore, seed=rnd.randint(0, 9)))
+        if _ % 4 == 3:
+            gen.unsteady_clock(scs[-1], rnd, p=0.7)
     # general pool without rename detection
     for s in range(ctx.scale(25, 300)):
         sc = gen.gen_scenario(ctx.seed * 1000003 + s, "general")
@@ -164,7 +166,7 @@ def run(ctx):
             o.pop("dr", None)
         scs.append(sc)
     r = pool.run_pool(scs, monitor=monitor)
-    fails = r["fails"]
+    fails = r["fails"] + largefiles.extra(ctx)
     # witness of the repaired defect
     for w in ("D1",):
         for msg in witnesses.ALL[w]():
